@@ -9,7 +9,7 @@ CONSTANTS
   MaxHeartbeats = 2
   MaxLog = 8
   MaxNet = 8
-  MaxEnts = 1
+  MaxEnts = 0
   LossySend = FALSE
   SimDepth = 40
   W_CommitAnyTerm = FALSE
@@ -19,7 +19,7 @@ CONSTANTS
   W_AppendAlwaysTruncates = FALSE
   W_HeartbeatCommitUnbounded = FALSE
   W_QuorumMinusOne = FALSE
-  PreVote = FALSE
+  PreVote = TRUE
   W_PreVoteRespCountsAsVote = FALSE
 INIT Init
 NEXT Next
